@@ -279,9 +279,22 @@ func VerifOverlay() {
 			case kDir:
 				e.mode = int64(verifrt.IntRange("mode", 0, 0o777))
 			}
-			// no two entries of one layer for the same path (tar archives produced by image builders have none)
+			// no two entries of one layer for the same path, and no path that one layer uses both as a
+			// non-directory and as the parent of another entry (tar archives produced by image builders
+			// have neither)
 			for _, o := range layer {
 				if o.path == e.path {
+					verifrt.Assume(false)
+				}
+				if under(o.path, e.path) && (o.kind == kReg || o.kind == kSymlink) {
+					verifrt.Assume(false)
+				}
+				if under(e.path, o.path) && (e.kind == kReg || e.kind == kSymlink) {
+					verifrt.Assume(false)
+				}
+				// a layer does not both delete a path and create something at or beneath it
+				// (builders emit an opaque marker for a directory that is re-created)
+				if (o.kind == kWhiteout && under(o.path, e.path)) || (e.kind == kWhiteout && under(e.path, o.path)) {
 					verifrt.Assume(false)
 				}
 			}
@@ -345,6 +358,16 @@ func VerifOverlay() {
 						if !listed {
 							shadowedDir = true
 						}
+					}
+				}
+			}
+		}
+		// ... or the layer lists a directory after an entry beneath it
+		for j, e := range specs[i] {
+			if e.kind == kDir {
+				for _, o := range specs[i][:j] {
+					if under(e.path, o.path) || (o.kind == kOpaque && o.path == e.path) {
+						shadowedDir = true
 					}
 				}
 			}
